@@ -65,6 +65,14 @@ func unitC04orch(e common.Env, p *common.Part) {
 	// node identifier 0 (a legal identifier; the zero value of every table keyed or valued by identifiers), with point-to-point traffic
 	mk("dkg N=3 ids 0,5,9 all senders p2p", []uint16{0, 5, 9}, false, []uint16{0, 5, 9}, []uint8{1}, true, e.Pick(1500, 20000), e.Pick(200, 2000))
 	mk("sign N=4 ids 0,1,2,3 all senders 2 rounds p2p", []uint16{0, 1, 2, 3}, true, []uint16{0, 1, 2, 3}, []uint8{1, 2}, true, 0, e.Pick(200, 4000))
+	// sessions among a strict subset of the membership: a configured member that takes part in nothing (and, second configuration,
+	// a stand-by replica of a participating party); whatever is sized or addressed "by membership" instead of "by session" shows here
+	mk("dkg N=3 of a 4-node membership, all senders p2p", []uint16{1, 2, 3}, false, []uint16{1, 2, 3}, []uint8{1}, true, e.Pick(1500, 20000), e.Pick(200, 2000))
+	cases[len(cases)-1].cfg.Map = map[uint16]uint16{1: 1, 2: 2, 3: 3, 9: 9}
+	mk("sign N=3 of a membership with a stand-by replica of party 3, all senders p2p", []uint16{1, 2, 3}, true, []uint16{1, 2, 3}, []uint8{1}, true, e.Pick(1500, 20000), e.Pick(200, 2000))
+	cases[len(cases)-1].cfg.Map = map[uint16]uint16{1: 1, 2: 2, 3: 3, 4: 3}
+	mk("dkg N=3 of a membership with a stand-by replica of party 3, all senders", []uint16{1, 2, 3}, false, []uint16{1, 2, 3}, []uint8{1, 2}, false, 0, e.Pick(200, 2000))
+	cases[len(cases)-1].cfg.Map = map[uint16]uint16{1: 1, 2: 2, 3: 3, 4: 3}
 	mkSilent := func(name string, ids []uint16, sign bool, transmit []uint16, rounds []uint8, p2p bool, limit, samples int) {
 		mk(name, ids, sign, transmit, rounds, p2p, limit, samples)
 		cases[len(cases)-1].cfg.Silent = true
@@ -436,6 +444,19 @@ func byzOrchCatalogue(e common.Env) []ocase {
 			kind := map[bool]string{false: "dkg", true: "sign"}[sign]
 			mp := map[uint16]uint16{1: 1, 2: 2, 3: 3, 4: dupParty}
 			add(fmt.Sprintf("%s N=4 party %d represented by two participating nodes", kind, dupParty), []uint16{1, 2, 3, 4}, mp, sign, nil, nil, []uint16{dupParty}, nil, lim4, smp)
+		}
+	}
+	// all honest, a party with a primary and a stand-by node: sessions in which it is represented by the one or by the other; every
+	// hand-over is attributed to the party of the node it came from
+	for _, rep := range [][]uint16{{2, 3, 4}, {1, 2, 3}, {2, 3, 1, 5}, {2, 3, 4, 5}} {
+		for _, sign := range []bool{false, true} {
+			kind := map[bool]string{false: "dkg", true: "sign"}[sign]
+			mp := map[uint16]uint16{1: 1, 2: 2, 3: 3, 4: 1, 5: 5}
+			var parties []uint16
+			for _, u := range rep {
+				parties = append(parties, mp[u])
+			}
+			add(fmt.Sprintf("%s all honest, party 1 has nodes 1 and 4, participants %v", kind, rep), rep, mp, sign, nil, nil, parties, nil, lim4, smp)
 		}
 	}
 	// key generation with a threshold below n-1: every party takes part, so a broadcast still needs the vouchers of all the others
